@@ -12,6 +12,9 @@ struct Sys {
     num_vars: usize,
     /// (strictly increasing, non-empty variable list; constant)
     eqs: Vec<(Vec<u32>, u128)>,
+    /// Some(true/false): solvability known by construction (systems too large for the dense oracle and for
+    /// the quadratic plain elimination: only the lazy solver runs on them)
+    planted: Option<bool>,
 }
 
 trait TW: Word + std::fmt::Debug {
@@ -193,7 +196,7 @@ fn decode(u: &mut Unstructured, wbits: u32) -> Sys {
         }
         _ => {}
     }
-    Sys { wbits, num_vars, eqs }
+    Sys { wbits, num_vars, eqs, planted: None }
 }
 
 /// Exhaustive sub-domain: <= 3 variables, <= 4 equations, 1-bit constants.
@@ -215,7 +218,7 @@ fn enumerated(j: u64) -> Sys {
         let vars: Vec<u32> = (0..3).filter(|b| (subset >> b) & 1 == 1).collect();
         eqs.push((vars, (e % 2) as u128));
     }
-    Sys { wbits: 64, num_vars: 3, eqs }
+    Sys { wbits: 64, num_vars: 3, eqs, planted: None }
 }
 
 /// Systems with very long rows (a global parity row and friends) around the
@@ -259,7 +262,50 @@ fn long_rows(j: u64) -> Sys {
         let (v, c) = eqs.iter().max_by_key(|e| e.0.len()).unwrap().clone();
         eqs.push((v, c ^ 1));
     }
-    Sys { wbits: 64, num_vars, eqs }
+    Sys { wbits: 64, num_vars, eqs, planted: None }
+}
+
+/// More than 2^16 sparse equations with a few variables that occur in about
+/// 2^16 of them (weights 65535..65538 and beyond, several different heavy
+/// weights at once): the regime of the per-variable weight counters.
+fn many_equations(j: u64) -> Sys {
+    let m = 65_536 + [2usize, 1, 40, 3000][j as usize % 4];
+    let num_vars = [70_000usize, 131_072, 66_000][(j / 4) as usize % 3];
+    let sol = |i: u32| -> u128 { ((i as u64 + 3).wrapping_mul(0xD6E8_FEB8_6659_FD93) >> 5) as u128 };
+    // heavy variables and the number of equations each occurs in
+    let heavy: Vec<(u32, usize)> = match (j / 12) % 4 {
+        0 => vec![(5, 65_536), (9, 65_537)],
+        1 => vec![(0, 65_537), (7, 65_535), (11, 65_538)],
+        2 => vec![(3, m), (4, m - 1)],
+        _ => vec![(6, 65_536), (8, 65_536), (2, 65_540.min(m))],
+    };
+    let mut x = 0x9E37_79B9_7F4A_7C15u64 ^ j;
+    let mut next = || {
+        x ^= x << 13;
+        x ^= x >> 7;
+        x ^= x << 17;
+        x
+    };
+    let mut eqs: Vec<(Vec<u32>, u128)> = Vec::with_capacity(m + 1);
+    for i in 0..m {
+        let mut vars: Vec<u32> = heavy.iter().filter(|(_, w)| i < *w).map(|(v, _)| *v).collect();
+        // two or three light variables; variable 0 shows up now and then
+        let k = 2 + (next() % 2) as usize;
+        for _ in 0..k {
+            let v = if next() % 64 == 0 { 0 } else { 16 + (next() % (num_vars as u64 - 16)) as u32 };
+            vars.push(v);
+        }
+        vars.sort_unstable();
+        vars.dedup();
+        let c = vars.iter().fold(0u128, |a, v| a ^ sol(*v));
+        eqs.push((vars, c));
+    }
+    let planted = (j / 48) % 3 != 2;
+    if !planted {
+        let (v, c) = eqs[m / 2].clone();
+        eqs.push((v, c ^ 4));
+    }
+    Sys { wbits: 64, num_vars, eqs, planted: Some(planted) }
 }
 
 pub const ENUM_COUNT: u64 = 1 + 14 + 196 + 2744 + 38416;
@@ -272,10 +318,16 @@ fn run_w<W: TW>(cx: &mut Ctx, s: &Sys) -> R {
         }
         sys
     };
-    let solvable = oracle_solvable(s);
+    let solvable = match s.planted {
+        Some(p) => p,
+        None => oracle_solvable(s),
+    };
     cx.label(if solvable { "solvable" } else { "unsolvable" });
     let orig = cx.must("build", build)?;
     for lazy in [false, true] {
+        if !lazy && s.planted.is_some() {
+            continue; // the plain elimination is quadratic in the number of equations
+        }
         let name = if lazy { "lazy_gaussian_elimination" } else { "gaussian_elimination" };
         let mut sys = cx.must("clone", || orig.clone())?;
         let r = cx.must(name, || if lazy { sys.lazy_gaussian_elimination() } else { sys.gaussian_elimination() })?;
@@ -325,10 +377,12 @@ impl Property for C19 {
             Segment::random("u16", tier.pick(80_000, 4_000_000), &[4], 8, 700),
             // rows with 2^8 +-1, 2^16 +-1 and more variables (counters of idle variables per equation)
             Segment::enumerated("long-rows", tier.pick(24, 96), &[0xF1]),
+            // more than 2^16 equations, variables occurring in about 2^16 of them
+            Segment::enumerated("many-equations", tier.pick(8, 96), &[0xF2]),
         ]
     }
     fn rule(&self) -> &'static str {
-        "case = system over W in {u8,u16,u64,usize,u128} with <=70 variables and <=~70 equations whose variable lists are non-empty, strictly increasing and below num_vars (sizes 1..6, mostly 3), shaped as planted-solution, planted+contradictory combination, arbitrary constants, repeated rows, rank-deficient, 3-uniform and fuse-like (segment) systems; plus the complete enumeration of all systems with 3 variables, <=4 equations and 1-bit constants. plus an enumerated segment of planted/contradictory systems with rows of 255..257, 511, 65535..65538, 70000 and 131072 variables (global parity rows, halves, near-complements) next to short rows. Oracle = independent dense Gauss-Jordan elimination in the harness; both solvers run on clones: Ok iff solvable, solution length, harness evaluator and check(). Non-trivial: at least 2 equations sharing a variable; distinct = distinct hash of the decoded system."
+        "case = system over W in {u8,u16,u64,usize,u128} with <=70 variables and <=~70 equations whose variable lists are non-empty, strictly increasing and below num_vars (sizes 1..6, mostly 3), shaped as planted-solution, planted+contradictory combination, arbitrary constants, repeated rows, rank-deficient, 3-uniform and fuse-like (segment) systems; plus the complete enumeration of all systems with 3 variables, <=4 equations and 1-bit constants. plus an enumerated segment of planted/contradictory systems with rows of 255..257, 511, 65535..65538, 70000 and 131072 variables (global parity rows, halves, near-complements) next to short rows. plus an enumerated segment of 65537..68536 sparse equations over 66000..131072 variables in which 2-3 variables occur in 65535..65540 (or all) equations, solvable by construction or with one contradicting copy (lazy solver only: the plain elimination is quadratic). Oracle = independent dense Gauss-Jordan elimination in the harness; both solvers run on clones: Ok iff solvable, solution length, harness evaluator and check(). Non-trivial: at least 2 equations sharing a variable; distinct = distinct hash of the decoded system."
     }
     fn run(&self, data: &[u8], cx: &mut Ctx) -> R {
         let (mode, rest) = data.split_first().unwrap_or((&0, &[]));
@@ -337,6 +391,11 @@ impl Property for C19 {
             b[..rest.len().min(8)].copy_from_slice(&rest[..rest.len().min(8)]);
             cx.label("enumerated");
             enumerated(u64::from_le_bytes(b) % ENUM_COUNT)
+        } else if *mode == 0xF2 {
+            let mut b = [0u8; 8];
+            b[..rest.len().min(8)].copy_from_slice(&rest[..rest.len().min(8)]);
+            cx.label("many_equations");
+            many_equations(u64::from_le_bytes(b))
         } else if *mode == 0xF1 {
             let mut b = [0u8; 8];
             b[..rest.len().min(8)].copy_from_slice(&rest[..rest.len().min(8)]);
@@ -348,7 +407,7 @@ impl Property for C19 {
             decode(&mut u, wbits)
         };
         cx.hash(&s);
-        cx.describe(|| if s.num_vars > 200 { format!("Sys {{ wbits: {}, num_vars: {}, eqs (lengths, constant): {:?} }}", s.wbits, s.num_vars, s.eqs.iter().map(|(v, c)| (v.len(), v.first().copied(), v.last().copied(), *c)).collect::<Vec<_>>()) } else { format!("{:?}", s) });
+        cx.describe(|| if s.num_vars > 200 && s.eqs.len() > 1000 { format!("Sys {{ wbits: {}, num_vars: {}, {} sparse equations, planted: {:?} }}", s.wbits, s.num_vars, s.eqs.len(), s.planted) } else if s.num_vars > 200 { format!("Sys {{ wbits: {}, num_vars: {}, eqs (lengths, constant): {:?} }}", s.wbits, s.num_vars, s.eqs.iter().map(|(v, c)| (v.len(), v.first().copied(), v.last().copied(), *c)).collect::<Vec<_>>()) } else { format!("{:?}", s) });
         let mut shares = false;
         let mut seen = vec![false; s.num_vars];
         for (vars, _) in &s.eqs {
@@ -362,7 +421,7 @@ impl Property for C19 {
         cx.label_if(s.eqs.len() > s.num_vars, "overdetermined");
         // the word type follows the width the constants were generated for (any mode byte, as a fuzzer may send)
         match (*mode, s.wbits) {
-            (0xF0 | 0xF1, _) => run_w::<u64>(cx, &s),
+            (0xF0 | 0xF1 | 0xF2, _) => run_w::<u64>(cx, &s),
             (_, 8) => run_w::<u8>(cx, &s),
             (_, 16) => run_w::<u16>(cx, &s),
             (_, 128) => run_w::<u128>(cx, &s),
